@@ -17,6 +17,7 @@ import (
 	"google.golang.org/protobuf/proto"
 
 	gpb "github.com/openconfig/gnmi/proto/gnmi"
+	gext "github.com/openconfig/gnmi/proto/gnmi_ext"
 	tpb "github.com/openconfig/gnmi/proto/target"
 	"github.com/openconfig/gnmi/target"
 	"github.com/openconfig/gnmi/zzverif/seqmc"
@@ -31,7 +32,15 @@ type loadOp struct {
 	absRev int64
 }
 
+// request: content "A+" is request "A" with a field set OUTSIDE the subscription
+// list (a Depth extension on the request itself) - the same subscription, a
+// different request.
 func request(content string) *gpb.SubscribeRequest {
+	if strings.HasSuffix(content, "+") {
+		r := request(strings.TrimSuffix(content, "+"))
+		r.Extension = []*gext.Extension{{Ext: &gext.Extension_Depth{Depth: &gext.Depth{Level: 2}}}}
+		return r
+	}
 	return &gpb.SubscribeRequest{Request: &gpb.SubscribeRequest_Subscribe{Subscribe: &gpb.SubscriptionList{
 		Prefix: &gpb.Path{Origin: "openconfig"},
 		// a list element with three keys: maps with several entries must compare
@@ -39,6 +48,9 @@ func request(content string) *gpb.SubscribeRequest {
 		Subscription: []*gpb.Subscription{{Path: &gpb.Path{Elem: []*gpb.PathElem{{Name: content}, {Name: "protocol", Key: map[string]string{"identifier": "BGP", "name": "bgp", "vrf": "default"}}}}}},
 	}}}
 }
+
+// withExt: the universe built next also offers request r1 with content "A+"
+var withExt bool
 
 // universe: tnames are the names of the (up to three) targets; naming a target
 // like a request ("r1") puts the two name spaces of a configuration in contact.
@@ -54,7 +66,11 @@ func universe(three bool, tnames ...string) []loadOp {
 		t3Opts = tgtOpts
 	}
 	var shapes []loadOp
-	for _, r1 := range reqOpts {
+	r1Opts := reqOpts
+	if withExt {
+		r1Opts = append(append([]string{}, reqOpts...), "A+")
+	}
+	for _, r1 := range r1Opts {
 		for _, r2 := range reqOpts {
 			for _, t1 := range tgtOpts {
 				for _, t2 := range tgtOpts {
@@ -404,6 +420,19 @@ func extremes() []loadOp {
 	return ops
 }
 
+// extSpecOf: request r1 may also differ from itself in a field OUTSIDE its
+// subscription list (an extension on the SubscribeRequest): a changed request.
+func extSpecOf() seqmc.Spec {
+	withExt = true
+	ops := universe(false)
+	withExt = false
+	var names []string
+	for _, o := range ops {
+		names = append(names, o.name)
+	}
+	return seqmc.Spec{Name: "from NewConfig 2 targets, request r1 also with an extension outside its subscription list (closure)", Ops: names, Depth: 30, New: func() seqmc.Sys { fullMemory = false; return newSys(ops, false, false) }}
+}
+
 func (harness) Specs(tier string) []seqmc.Spec {
 	ex := extremes()
 	var exNames []string
@@ -442,7 +471,7 @@ func (harness) Specs(tier string) []seqmc.Spec {
 			sharedNames = append(sharedNames, o.name)
 		}
 		sharedSpec := seqmc.Spec{Name: "from NewConfig 2 targets NAMED LIKE the requests r1, r2 (closure)", Ops: sharedNames, Depth: 30, New: func() seqmc.Sys { fullMemory = false; return newSys(sharedOps, false, false) }}
-		return append(append(append(mk("2 targets, full rejected-load memory", universe(false), true), mk("3 targets", universe(true), false)...), sharedSpec), exSpec)
+		return append(append(append(append(mk("2 targets, full rejected-load memory", universe(false), true), mk("3 targets", universe(true), false)...), sharedSpec), extSpecOf()), exSpec)
 	}
 	// target names that are also request names (per-device requests named after the device)
 	sharedOps := universe(false, "r1", "r2", "t3")
@@ -451,7 +480,7 @@ func (harness) Specs(tier string) []seqmc.Spec {
 		sharedNames = append(sharedNames, o.name)
 	}
 	sharedSpec := seqmc.Spec{Name: "from NewConfig 2 targets NAMED LIKE the requests r1, r2 (closure)", Ops: sharedNames, Depth: 30, New: func() seqmc.Sys { fullMemory = false; return newSys(sharedOps, false, false) }}
-	return append(append(mk("2 targets", universe(false), false), sharedSpec), exSpec)
+	return append(append(append(mk("2 targets", universe(false), false), sharedSpec), extSpecOf()), exSpec)
 }
 
 func main() { seqmc.Main(harness{}) }
